@@ -352,6 +352,9 @@ def run(prop, tier):
         ctx.assumptions += ["tracking modes per DESIGN.md A.3 (cross-checked against the .pcf type labels)",
                             "acceptance of value events is C08's subject (soft here); numeric task id / type gid / rank values are learned from the thread row and then required everywhere",
                             "two model threads, value depth <= 1 (2 for nosv-subsystem and mpi-function in the thorough tier)"]
+        from checks import soak
+        if not ctx.out_of_time(0.9):
+            soak.run_for(ctx, build, scratch, "C06", tier)
         return ctx.finish()
     finally:
         scratch.cleanup()
